@@ -96,6 +96,13 @@ func VerifC13_ContextSelection() {
 	sni := zzSNICatalogue[verif.Choose("sni", len(zzSNICatalogue))]
 	protos := zzHelloAlpn[verif.Choose("hello_alpn", len(zzHelloAlpn))]
 	mng := &serverContextManager{providers: provs}
+	anyReady := false
+	for _, r := range refs {
+		anyReady = anyReady || r.ready
+	}
+	// TLS is on for the listener as soon as one context is ready (a context still waiting for its
+	// secret must not switch the listener to plaintext); with none ready it is off
+	verif.Assert(mng.Enabled() == anyReady, "the listener's TLS is not enabled exactly when at least one of its contexts is ready")
 	cfg, err := mng.GetConfigForClient(&tls.ClientHelloInfo{ServerName: sni, SupportedProtos: protos})
 	got := ""
 	if err == nil && cfg != nil {
